@@ -147,8 +147,29 @@ SETLIKE = {"set", "frozenset", "AbstractSet", "MutableSet"}
 ITER_DOC = {"list", "set", "frozenset", "deque", "tuple", "Sequence", "MutableSequence", "Iterable", "Collection",
             "Reversible", "AbstractSet", "MutableSet"}
 DICT_DOC = {"dict", "Mapping", "MutableMapping"}
-# iterables a value of which is also an instance of the destination ABC (for "unspec" soundness by subtyping)
-SEQ_LIKE_DST = {"list", "Sequence", "MutableSequence", "Iterable", "Collection", "Reversible"}
+
+# runtime subclass relation between the generic origins (a value of the key is an instance of each listed origin)
+_SEQ = {"Sequence", "Iterable", "Collection", "Reversible"}
+ORIGIN_SUB = {
+    "list": {"list", "MutableSequence", *_SEQ},
+    "deque": {"deque", "MutableSequence", *_SEQ},
+    "tuple": {"tuple", *_SEQ},
+    "set": {"set", "MutableSet", "AbstractSet", "Iterable", "Collection"},
+    "frozenset": {"frozenset", "AbstractSet", "Iterable", "Collection"},
+    "Sequence": set(_SEQ),
+    "MutableSequence": {"MutableSequence", *_SEQ},
+    "Iterable": {"Iterable"},
+    "Collection": {"Collection", "Iterable"},
+    "Reversible": {"Reversible", "Iterable"},
+    "AbstractSet": {"AbstractSet", "Collection", "Iterable"},
+    "MutableSet": {"MutableSet", "AbstractSet", "Collection", "Iterable"},
+    "dict": {"dict", "Mapping", "MutableMapping"},
+    "defaultdict": {"defaultdict", "dict", "Mapping", "MutableMapping"},
+    "ordereddict": {"ordereddict", "dict", "Mapping", "MutableMapping"},
+    "Mapping": {"Mapping"},
+    "MutableMapping": {"MutableMapping", "Mapping"},
+    "type": {"type"},
+}
 
 # scalar name -> names of its proper non-generic superclasses among the scalars (object is handled separately)
 SCALAR_SUPERS = {"bool": ["int"], "IE": ["int"], "datetime": ["date"], "PB": ["PA"]}
@@ -276,45 +297,24 @@ class Universe:
             self._rel_cache[key] = r
         return r
 
-    def _rel(self, s, d) -> int:  # noqa: C901, PLR0911, PLR0912, PLR0915
+    def _rel(self, s, d) -> int:  # noqa: C901, PLR0911, PLR0912
+        sk, dk = s[0], d[0]
         # "source type and destination type are the same"
         if s == d:
             return YES
         # "destination type is Any"
         if d == ("sc", "Any"):
             return YES
-        out = NO
-        sk, dk = s[0], d[0]
         # "source type is a subclass of destination type (excluding generics)"
-        if d == ("sc", "object"):
-            nongeneric_class = (sk == "sc" and s[1] != "None") or (sk == "m" and not s[2])
-            out = max(out, YES if nongeneric_class else UNSPEC)  # everything is an object: sound in any case
-        if sk == "sc" and dk == "sc" and d[1] in SCALAR_SUPERS.get(s[1], ()):
-            out = max(out, YES)
-        if out == YES:
+        if d == ("sc", "object") and ((sk == "sc" and s[1] != "None") or (sk == "m" and not s[2])):
             return YES
-        # NewType is a subtype of its base (not documented -> unspec at most)
-        if sk == "nt" and self.rel(s[2], d) != NO:
-            out = max(out, UNSPEC)
-        # Literal is a subtype of a wider Literal / of the class of its values (not documented)
-        if sk == "lit":
-            if dk == "lit" and set(s[1]) <= set(d[1]):
-                out = max(out, UNSPEC)
-            if dk == "sc":
-                classes = {LIT_TYPE_TO_SCALAR[t] for t, _ in s[1]}
-                if all(c == d[1] or d[1] in SCALAR_SUPERS.get(c, ()) for c in classes):
-                    out = max(out, UNSPEC)
+        if sk == "sc" and dk == "sc" and d[1] in SCALAR_SUPERS.get(s[1], ()):
+            return YES
         # "source union is a subset of destination union (simple == check is using)";
         # a non-union source counts as a one-member union (tests: int -> Optional[int])
-        if dk == "u":
-            smem = s[1] if sk == "u" else (s,)
-            if all(m in d[1] for m in smem):
-                return YES
-            if all(any(self.rel(m, dm) != NO for dm in d[1]) for m in smem):
-                out = max(out, UNSPEC)  # member-wise subtype: sound, not documented
-        elif sk == "u":
-            if all(self.rel(m, d) != NO for m in s[1]):
-                out = max(out, UNSPEC)
+        if dk == "u" and all(m in d[1] for m in (s[1] if sk == "u" else (s,))):
+            return YES
+        out = NO
         # "source and destination types are Optional" (inner types coercible)
         none = ("sc", "None")
         if sk == "u" and dk == "u" and none in s[1] and none in d[1]:
@@ -340,19 +340,91 @@ class Universe:
                 if s[1] not in DICT_DOC or d[1] not in DICT_DOC:
                     r = min(r, UNSPEC)
                 out = max(out, r)
-            if sf == "type" and df == "type" and self.rel(s[2][0], d[2][0]) != NO:
-                out = max(out, UNSPEC)  # type[] is covariant: sound, not documented
-        # classes that are subclasses of a generic: sound when the parameters fit, "excluding generics" in the docs
-        if dk == "g" and d[1] in SEQ_LIKE_DST:
-            elem = {"IntList": ("sc", "int"), "str": ("sc", "str"), "bytes": ("sc", "int")}.get(s[1]) \
-                if sk == "sc" else None
-            if s == ("sc", "IntList") or (elem is not None and d[1] != "list" and d[1] != "MutableSequence"):
-                if self.rel(elem, d[2][0]) != NO:
-                    out = max(out, UNSPEC)
         # "source and destination types are models (conversion like top-level models)"
         if sk == "m" and dk == "m":
             out = max(out, self.model_rel(s, d, {}))
+        # not documented, but every value of S is structurally a value of D: passing it through is sound
+        if out == NO and self.sub(s, d):
+            out = UNSPEC
         return out
+
+    def sub(self, s, d) -> bool:
+        key = ("sub", s, d)
+        r = self._rel_cache.get(key)
+        if r is None:
+            r = self._sub(s, d)
+            self._rel_cache[key] = r
+        return r
+
+    def _sub(self, s, d) -> bool:  # noqa: C901, PLR0911, PLR0912
+        """Structural (covariant) subtyping: every runtime value of S conforms to D.  Used only to keep sound
+        pass-through outside the asserted zone ("unspec"); it never turns a refusal into a violation."""
+        if s == d or d in (("sc", "Any"), ("sc", "object")):
+            return True
+        sk, dk = s[0], d[0]
+        if s == ("sc", "Any"):
+            return False
+        if sk == "u":
+            return all(self.sub(m, d) for m in s[1])
+        if dk == "u":
+            return any(self.sub(s, m) for m in d[1])
+        if sk == "nt":
+            return self.sub(s[2], d)
+        if sk == "lit":
+            if dk == "lit":
+                return set(s[1]) <= set(d[1])
+            if dk == "sc":
+                classes = {LIT_TYPE_TO_SCALAR[t] for t, _ in s[1]}
+                return all(c == d[1] or d[1] in SCALAR_SUPERS.get(c, ()) for c in classes)
+            return False
+        if sk == "sc":
+            if dk == "sc":
+                return d[1] in SCALAR_SUPERS.get(s[1], ())
+            if dk == "g":
+                elem = None
+                if s[1] == "IntList" and d[1] in ORIGIN_SUB["list"]:
+                    elem = ("sc", "int")
+                elif s[1] in ("str", "bytes") and d[1] in ORIGIN_SUB["Sequence"]:
+                    elem = ("sc", "str") if s[1] == "str" else ("sc", "int")
+                return elem is not None and self.sub(elem, d[2][0])
+            return False
+        if sk == "g" and dk == "g":
+            so, do = s[1], d[1]
+            if so == "tuplef":
+                if do == "tuplef":
+                    return len(s[2]) == len(d[2]) and all(self.sub(a, b) for a, b in zip(s[2], d[2]))
+                return do in ORIGIN_SUB["tuple"] and all(self.sub(a, d[2][0]) for a in s[2])
+            if do == "tuplef" or do not in ORIGIN_SUB[so]:
+                return False
+            return all(self.sub(a, b) for a, b in zip(s[2], d[2]))
+        if sk == "m":
+            if dk == "m":
+                return s[1] == d[1] and all(self.sub(a, b) for a, b in zip(s[2], d[2]))
+            if dk == "g" and self.models[s[1]][2] == "nt":  # a NamedTuple instance is a tuple
+                ftypes = [t for _, t, _ in self.model_fields(s)]
+                if d[1] == "tuplef":
+                    return len(ftypes) == len(d[2]) and all(self.sub(a, b) for a, b in zip(ftypes, d[2]))
+                return d[1] in ORIGIN_SUB["tuple"] and all(self.sub(a, d[2][0]) for a in ftypes)
+        return False
+
+    def cwalk(self, c):
+        """All canonical nodes reachable from a canonical type (through model fields as well)."""
+        yield c
+        k = c[0]
+        if k == "nt":
+            yield from self.cwalk(c[2])
+        elif k == "g":
+            for a in c[2]:
+                yield from self.cwalk(a)
+        elif k == "u":
+            for m in c[1]:
+                yield from self.cwalk(m)
+        elif k == "m":
+            for _, t, _ in self.model_fields(c):
+                yield from self.cwalk(t)
+
+    def has_several_member_optional(self, *canons) -> bool:
+        return any(n[0] == "u" and ("sc", "None") in n[1] and len(n[1]) > 2 for c in canons for n in self.cwalk(c))
 
     def model_rel(self, s, d, params) -> int:
         """Field-wise rule.  ``params``: name -> canonical type of extra converter parameters (top level only;
@@ -568,7 +640,7 @@ def well_formed(spec) -> bool:  # noqa: C901, PLR0911, PLR0912
             return False
         if spec[1] == "tuplef" and not spec[2]:
             return False
-        if spec[1] == "type" and spec[2][0][0] != "sc":
+        if spec[1] == "type" and (spec[2][0][0] != "sc" or spec[2][0] == NONE):
             return False
         return all(well_formed(a) for a in spec[2])
     if k == "u":
@@ -577,7 +649,7 @@ def well_formed(spec) -> bool:  # noqa: C901, PLR0911, PLR0912
         if spec[2] == "Optional" and (len(spec[1]) != 2 or spec[1][1] != NONE or spec[1][0] == NONE):
             return False
         for m in spec[1]:
-            if m in (ANY, OBJECT) or m[0] == "tv":
+            if m in (ANY, OBJECT):
                 return False
         keys = [jkey(m) for m in spec[1]]
         if len(set(keys)) != len(keys):
@@ -798,7 +870,7 @@ class Builder:
             if n == "None":
                 return v is None
             if n == "float":
-                return isinstance(v, (float, int)) and not isinstance(v, bool) or isinstance(v, float)
+                return isinstance(v, (float, int))  # PEP 484 numeric promotion: lenient on purpose
             return isinstance(v, self.scalar(n))
         if k == "tv":
             return self.conforms(v, tv[spec[1]], None)
@@ -920,12 +992,31 @@ def make_stub(names, annotations):
 
 
 # =================================================================================== known (open) finding classes
-KNOWN_BLAME_CLASSES = ("union_member_matched_by_origin_only", "optional_with_several_members")
 
 
 def has_bare_abc(case) -> bool:
     specs = [case["src"], case["dst"], *[p[1] for p in case.get("params", [])]]
     return any(n[0] == "bare" and n[1] in ABC_ORIGINS for s in specs for n in walk(s))
+
+
+def nameless_hint_vs_model(case) -> bool:
+    """A PEP 604 union (``X | Y`` has no ``__name__``) or a top-level ``None`` somewhere, and a model it can be
+    paired with (over-approximation of the trigger of the open finding C14-model-hint-without-name)."""
+    src, dst = case["src"], case["dst"]
+    top = not (src[0] == "m" and dst[0] == "m")
+    specs = [src, dst, *[p[1] for p in case.get("params", [])]]
+    nameless = any(n[0] == "u" and n[2] == "pipe" for s in specs for n in walk(s)) or (top and NONE in (src, dst))
+    if not nameless:
+        return False
+    models = sum(1 for s in specs for n in walk(s) if n[0] == "m")
+    return models > (0 if top else 2)
+
+
+def norm_site(site: str) -> str:
+    """Generated closures carry class names: ``<generated>:coerce_A_to_B`` -> ``<generated>:coerce``."""
+    if site.startswith("<generated>:"):
+        return "<generated>:" + site[len("<generated>:"):].split("_")[0]
+    return site
 
 
 # =================================================================================== the oracle
@@ -957,6 +1048,7 @@ def check_case(ctx: runner.Ctx, case):  # noqa: C901, PLR0912, PLR0915
             raise env.HarnessError(f"verdict 'no' without a blamed sub-pair: {pretty(src)} -> {pretty(dst)}")
     blame_classes = sorted({b[0] for b in blames})
     bare_abc = has_bare_abc(case)
+    several = "several_member_optional" if uni.has_several_member_optional(cs, cd, *cparams.values()) else "-"
 
     # ---- the pairs the case is "about" (field types of the outer models, or the top-level pair)
     core = []
@@ -976,8 +1068,13 @@ def check_case(ctx: runner.Ctx, case):  # noqa: C901, PLR0912, PLR0915
                                            for a, b in core)
 
     # ---- labels
-    nodes = [n for s in (src, dst, *[p[1] for p in params]) for n in walk(s)]
-    inner_nodes = [n for s in (src, dst) for n in walk(s)][1:]
+    via = "param" if params else ("field" if src[0] == "m" and dst[0] == "m" else "top")
+    inner_nodes = []
+    for top in (src, dst):
+        nodes = list(walk(top))
+        inner_nodes.extend(nodes if via == "top" else nodes[1:])  # the outer Src/Dst wrappers are not features
+    for _, t in params:
+        inner_nodes.extend(walk(t))
     feats = set()
     for n in inner_nodes:
         k = n[0]
@@ -991,7 +1088,7 @@ def check_case(ctx: runner.Ctx, case):  # noqa: C901, PLR0912, PLR0915
                 feats.add("abc_collection")
         elif k == "bare":
             feats.add("bare_generic")
-        elif k == "m" and n is not src and n is not dst:
+        elif k == "m":
             feats.add("generic_model" if n[4] else "nested_model")
             if n[2] != "dc":
                 feats.add(f"model_kind_{n[2]}")
@@ -999,7 +1096,6 @@ def check_case(ctx: runner.Ctx, case):  # noqa: C901, PLR0912, PLR0915
             feats.add({"lit": "literal", "nt": "newtype", "ann": "annotated"}[k])
     if bare_abc:
         feats.add("bare_abc")
-    via = "param" if params else ("field" if src[0] == "m" and dst[0] == "m" else "top")
     dmax = max(depth(src), depth(dst))
     labels = [f"via:{via}", f"policy:{policy[0]}", f"relation:{VERDICT[verdict]}",
               *[f"feat:{f}" for f in sorted(feats)]]
@@ -1034,7 +1130,7 @@ def check_case(ctx: runner.Ctx, case):  # noqa: C901, PLR0912, PLR0915
     except Exception as e:  # noqa: BLE001 -- (a): any other exception type is the violation being looked for
         outcome = "crashed"
         ctx.violation("creation_crashed",
-                      (type(e).__name__, exc_site(e), "bare_abc_present" if bare_abc else "no_bare_abc"),
+                      (type(e).__name__, norm_site(exc_site(e)), "bare_abc_present" if bare_abc else "no_bare_abc"),
                       case, f"{pretty(src)} -> {pretty(dst)}: {describe(e)}")
     sample["outcome"] = outcome
     ctx.case(jkey(case), nontrivial, sample=sample, labels=[*labels, f"outcome:{outcome}"])
@@ -1043,9 +1139,9 @@ def check_case(ctx: runner.Ctx, case):  # noqa: C901, PLR0912, PLR0915
             # completeness is not part of C14 (soundness is one-directional): counted, not asserted
             ctx.count("refused_although_documented_coercible")
             for a, b in core:
-                if uni.rel(a, b) == YES:
+                if a != b and uni.rel(a, b) == YES:
                     ctx.count(f"refused_documented:{kind_label(a)}->{kind_label(b)}")
-        return
+        return f"{outcome}/{VERDICT[verdict]}"
 
     # ---- (b)/(d) accepted => the documented relation must not say "no"
     if verdict == UNSPEC:
@@ -1071,7 +1167,8 @@ def check_case(ctx: runner.Ctx, case):  # noqa: C901, PLR0912, PLR0915
                     ctx.violation("unsound_acceptance", (cls, kp, stage), case,
                                   f"{pretty(src)} -> {pretty(dst)}: converter({args!r}) raised {describe(e)}")
             else:
-                ctx.violation("convert_raised", (type(e).__name__, exc_site(e), VERDICT[verdict]), case,
+                ctx.violation("convert_raised", (type(e).__name__, norm_site(exc_site(e)), VERDICT[verdict], several),
+                              case,
                               f"{pretty(src)} -> {pretty(dst)}: converter({args!r}) raised {describe(e)}")
             continue
         if not bld.conforms(res, dst):
@@ -1081,7 +1178,8 @@ def check_case(ctx: runner.Ctx, case):  # noqa: C901, PLR0912, PLR0915
                                   f"{pretty(src)} -> {pretty(dst)}: converter({args!r}) returned {res!r}, "
                                   f"which is not a {pretty(dst)}")
             else:
-                ctx.violation("wrong_type_placed", (VERDICT[verdict], f"{kind_label(cs)}->{kind_label(cd)}"), case,
+                ctx.violation("wrong_type_placed", (VERDICT[verdict], several, f"{kind_label(cs)}->{kind_label(cd)}"),
+                              case,
                               f"{pretty(src)} -> {pretty(dst)}: converter({args!r}) returned {res!r}, "
                               f"which is not a {pretty(dst)}")
             continue
@@ -1094,6 +1192,7 @@ def check_case(ctx: runner.Ctx, case):  # noqa: C901, PLR0912, PLR0915
                 if (val is DEFAULT) != (f[0] in unl):
                     ctx.violation("default_misplaced", ("unlinked" if f[0] in unl else "linked",), case,
                                   f"{pretty(src)} -> {pretty(dst)}: field {f[0]!r} of the result is {val!r}")
+    return f"{outcome}/{VERDICT[verdict]}"
 
 
 # =================================================================================== the exhaustive pool
@@ -1432,7 +1531,7 @@ def _edit_here(draw, spec):  # noqa: C901, PLR0911, PLR0912, PLR0915
     if op == "ann_meta":
         return ann(spec[1], "other-meta")
     if op == "m_twin":
-        return ["m", f"{spec[1]}'", *spec[2:]]
+        return ["m", f"{spec[1]}t", *spec[2:]]
     if op == "m_kind":
         if spec[4]:
             return spec
@@ -1539,12 +1638,16 @@ def known_classes_of(case) -> list:
     out = []
     if has_bare_abc(case):
         out.append("bare_abc")
+    if nameless_hint_vs_model(case):
+        out.append("nameless_hint_vs_model")
     uni = Universe(case.get("policy", ["forbid"]))
     cs, cd = uni.canon(case["src"]), uni.canon(case["dst"])
     cparams = {n: uni.canon(t) for n, t in case.get("params", [])}
+    if uni.has_several_member_optional(cs, cd, *cparams.values()):
+        out.append("several_member_optional")
     verdict = uni.model_rel(cs, cd, cparams) if cparams and cs != cd else uni.rel(cs, cd)
-    if verdict == NO:
-        out.extend(sorted({b[0] for b in uni.blames(cs, cd, cparams)} & set(KNOWN_BLAME_CLASSES)))
+    if verdict == NO and any(b[0] == "union_member_matched_by_origin_only" for b in uni.blames(cs, cd, cparams)):
+        out.append("union_member_matched_by_origin_only")
     return out
 
 
@@ -1558,29 +1661,32 @@ def sampled(ctx: runner.Ctx, case):
         return
     if known:
         ctx.count("known_class_probed")
-    check_case(ctx, case)
+    ctx.label(f"sampled:{check_case(ctx, case)}")
 
 
 def explore(ctx: runner.Ctx):
     # 1. all ordered pairs of the pool x configurations, sharded by index
+    # quick: 4 of the 6 configurations (the two dropped ones differ only in a policy that a linked field ignores)
+    configs = PAIR_CONFIGS if ctx.tier == "thorough" else [PAIR_CONFIGS[i] for i in (0, 3, 4, 5)]
     n = 0
     for s, d in itertools.product(POOL, POOL):
-        for config in PAIR_CONFIGS:
+        for config in configs:
             if n % ctx.nshards == ctx.shard:
-                check_case(ctx, pair_case(s, d, config))
+                ctx.label(f"pairs:{check_case(ctx, pair_case(s, d, config))}")
             n += 1
     # 2. unlinked destination fields
     for case in unlinked_cases():
         if n % ctx.nshards == ctx.shard:
-            check_case(ctx, case)
+            ctx.label(f"unlinked:{check_case(ctx, case)}")
         n += 1
     ctx.mark_exhaustive(
-        f"all {len(POOL)}^2 = {len(POOL) ** 2} ordered pairs of the type pool x {len(PAIR_CONFIGS)} configurations "
-        "(field required/optional x forbid/allow policy, extra-parameter source, top-level converter); "
+        f"all {len(POOL)}^2 = {len(POOL) ** 2} ordered pairs of the type pool x {len(configs)} configurations "
+        "(thorough: field required/optional x forbid/allow policy, extra-parameter source, top-level converter; "
+        "quick: required+forbid, optional+allow, extra-parameter source, top-level converter); "
         f"unlinked destination field: {len(POOL)} types x required/optional x {len(POLICIES_FOR_UNLINKED)} policy "
         "shapes x (top level, nested, nested with a same-named parameter)")
     # 3. nested combinations: source type and a destination derived by local rewrites
-    ctx.given(st_case(), lambda case: sampled(ctx, case), ctx.budget(6000, 400000))
+    ctx.given(st_case(), lambda case: sampled(ctx, case), ctx.budget(5000, 400000))
 
 
 RULE = ("exhaustive part: every ordered pair (S, D) of a fixed pool of field types as the type of one field of "
